@@ -817,7 +817,11 @@ class PDDLWriter:
         out.write(f"\n )\n")
         goals_str: List[str] = []
         for g in (c.simplify() for c in self.problem.goals):
-            if g.is_and():
+            if g.is_true():
+                continue
+            if g.is_false():
+                goals_str.append("(or )")
+            elif g.is_and():
                 goals_str.extend(map(converter.convert, g.args))
             else:
                 goals_str.append(converter.convert(g))
